@@ -45,6 +45,10 @@ RULE = ('fit: full product lag 1..4 x builder {normalize,transpose,mle} x trim x
         'save->load->save->load, save(force=True) over an existing directory; history: one estimator '
         'fitted on A, then B, then B again, a second estimator, results held by the caller, the caller\'s '
         'array overwritten afterwards, spectral/propagation functions called twice on the same objects; '
+        'sweep: one estimator taken through 4..8 configurations by set_params / attribute assignment (trim on->off '
+        'and off->on, lag_time, sliding_window, method, max_n_states) and through MSM.load of itself, with data '
+        'built so that the state count after trimming (non-identity mapping) equals the state count of the next, '
+        'untrimmed data set, all results compared with the pipeline after every fit; '
         'eig kinds metastable / twin-blocks (second eigenvalue within 1e-5..1e-8 of one, eigenvalue pairs '
         'split by the coupling; vector comparisons conditioned on the gap, residuals not) and the 1-state '
         'matrix; metastable trajectories for the timescales.  distinct by canonical input')
@@ -137,6 +141,13 @@ def ref_counts(rows, lag, sliding, n):
 
 ASSIGN_DTYPES = ('int64', 'int64', 'int32', 'int16', 'int8', 'uint8')
 WIDE_DTYPES = ('int64', 'int32', 'int16', 'uint16')        # for more than 127 states
+
+
+def pick_dtype(rng, form, choices=None):
+    """assignment dtype for a generated case: unsigned types cannot hold the -1 padding, so a padded
+    (rectangular) array never gets one - whatever the number of rows"""
+    d = str(rng.choice(choices or ASSIGN_DTYPES))
+    return d[1:] if (form == 'padded' and d.startswith('uint')) else d
 
 
 def make_assigns(rows, form, dtype='int64'):
@@ -371,10 +382,11 @@ def gen_fit_case(rng, lag, builder, trim, sliding, explicit):
     rows = gen_rows(rng, dense_counts=(builder == 'mle' and rng.random() < 0.85))
     mx = max(max(r) for r in rows) + 1
     max_n = int(mx + rng.integers(0, 3)) if explicit else None
+    form = 'ragged' if rng.random() < 0.5 else 'padded'
     return {'rows': rows, 'lag': lag, 'builder': builder, 'trim': trim, 'sliding': sliding,
-            'max_n': max_n, 'form': 'ragged' if rng.random() < 0.5 else 'padded',
+            'max_n': max_n, 'form': form,
             'by_name': bool(rng.random() < 0.4), 'positional': bool(rng.random() < 0.3),
-            'dtype': str(rng.choice(ASSIGN_DTYPES)),
+            'dtype': pick_dtype(rng, form),
             'np_lag': (str(rng.choice(['int64', 'int32'])) if rng.random() < 0.15 else False),
             'via': ('from_assignments' if rng.random() < 0.15 else None)}
 
@@ -789,6 +801,38 @@ def eig_arg(case):
     return np.array(case['T'], dtype=np.dtype(case.get('dtype', 'float64')))
 
 
+def eig_sensitivity(M, rng_seed=0):
+    """eigenvalues of M (sorted by descending real part) with a bound on what rounding can do to each.
+
+    Two estimates, the larger is used: (a) first-order perturbation theory, eps * ||M|| / s_k with
+    s_k = |y_k^H x_k| / (|y_k| |x_k|) from the left/right eigenvectors (s_k -> 0 for defective or nearly
+    defective eigenvalues: Jordan blocks of tiny count matrices with zero / absorbing rows); (b) the
+    observed movement of the spectrum when M is re-solved with a random perturbation of norm 1e-13.
+    Returns (values, bounds)."""
+    import scipy.linalg
+    M = np.asarray(M, dtype=float)
+    n = M.shape[0]
+    w, vl, vr = scipy.linalg.eig(M, left=True, right=True)
+    nrm = max(1.0, float(np.linalg.norm(M, 2)))
+    s = np.abs(np.sum(np.conj(vl) * vr, axis=0)) / np.maximum(
+        np.linalg.norm(vl, axis=0) * np.linalg.norm(vr, axis=0), 1e-300)
+    first_order = 100 * np.finfo(float).eps * nrm / np.maximum(s, 1e-300)
+    order = np.argsort(-w.real, kind='stable')
+    w, first_order = w[order], first_order[order]
+    D = np.random.default_rng(rng_seed).normal(size=(n, n))
+    D *= 1e-13 / max(np.linalg.norm(D, 2), 1e-300)
+    w2 = np.linalg.eigvals(M + D)
+    # movement of each eigenvalue = distance to the nearest eigenvalue of the perturbed matrix
+    moved = np.array([np.min(np.abs(w2 - z)) for z in w]) if n else np.zeros(0)
+    # (a) alone cries wolf for semi-simple multiple eigenvalues (symmetric chains: the eigenvectors inside
+    # the eigenspace are arbitrary, y^H x can be tiny although the eigenvalue is perfectly conditioned);
+    # the experiment (b) uses a perturbation 1000 times larger than rounding, so 10 * (b) is already a
+    # conservative bound there.  (a) is kept when it agrees with (b) within a factor 1e3.
+    bound = 10 * moved + 1e-14
+    agree = first_order <= 1e3 * bound
+    return w, np.where(agree, np.maximum(first_order, bound), bound)
+
+
 def stationary(T):
     n = T.shape[0]
     A = np.vstack([T.T - np.eye(n), np.ones((1, n))])
@@ -820,7 +864,7 @@ def check_eig(ctx, case, model, raw_vals):
     # single-precision input is decomposed in single precision (also by the unchanged code)
     f = 3e4 if case.get('dtype') == 'float32' else 1.0
     tight = 1e-5 if case.get('dtype') == 'float32' else 1e-12
-    mu = np.linalg.eigvals(T)                  # independent of the library's call
+    mu, mu_bound = eig_sensitivity(T)          # independent of the library's call, with rounding sensitivity
     # the eigenvector of eigenvalue one is determined to about machine-eps / gap only (gap = distance of the
     # second eigenvalue from one): comparisons of the vector itself are conditioned on it, residuals are not
     re_sorted = np.sort(mu.real)[::-1]
@@ -861,8 +905,13 @@ def check_eig(ctx, case, model, raw_vals):
     if abs(vals[0] - 1) > 1e-9 * f:
         ctx.violation('leading eigenvalue is %r, not one' % float(vals[0]), rep)
         return
-    want = np.sort(mu.real)[::-1][:k]
-    if not np.allclose(vals, want, rtol=0, atol=1e-7 * f):
+    # mu is sorted by descending real part; each value is trusted to its own sensitivity bound
+    # (large for defective / nearly defective eigenvalues, where two solvers legitimately differ)
+    want, wtol = mu.real[:k], 1e-7 * f + 10 * mu_bound[:k]
+    sens = 10 * mu_bound[:k] > 1e-4
+    if np.any(sens):
+        ctx.skip('eig: independent eigenvalue too sensitive to rounding (not compared), kind %s' % case['kind_T'])
+    if np.any(~sens & (np.abs(vals - want) > wtol)):
         ctx.violation('returned eigenvalues are not the largest real parts of the spectrum', dict(rep, vals=vals.tolist(), want=want.tolist()))
         return
     v0 = vecs[:, 0]
@@ -890,14 +939,15 @@ def check_eig(ctx, case, model, raw_vals):
         if scale == 0:
             ctx.violation('eigenvector %d is zero' % j, rep)
             return
-        best = np.inf
-        for z in mu[np.abs(mu.real - vals[j]) < 1e-6 * f]:
-            A = M.T - z.real * np.eye(n)
-            if abs(z.imag) <= 1e-9:
-                res = np.max(np.abs(A @ v))
-            else:                              # real part of a complex eigenvector: invariant plane
-                res = np.max(np.abs(A @ (A @ v) + z.imag ** 2 * v))
-            best = min(best, res / scale)
+        # the library's own pair (vals[j], v) has a small residual whatever the conditioning, if the
+        # eigenvalue is real; for a complex pair only the real part of the vector is returned, which lies
+        # in the invariant plane of a +- ib, with b taken from the independent spectrum (to its sensitivity)
+        A0 = M.T - vals[j] * np.eye(n)
+        best = np.max(np.abs(A0 @ v)) / scale
+        for z, zb in zip(mu, mu_bound):
+            if abs(z.real - vals[j]) < 1e-6 * f + 10 * zb and abs(z.imag) > 0:
+                res = np.max(np.abs(A0 @ (A0 @ v) + z.imag ** 2 * v)) / scale
+                best = min(best, max(res - 10 * zb * (2 * abs(z.imag) + 1), 0.0))
         if not best <= 1e-7 * f:
             ctx.violation('vector %d is not (the real part of) an eigenvector for the returned eigenvalue '
                           '(residual %.3g)' % (j, best), dict(rep, column=j))
@@ -1000,8 +1050,8 @@ def check_timescales(ctx, case, model_nt):
                 k = model_nt + 1
                 vals, _ = eigenspectrum(T, n_eigs=k)
                 expected.append(-lag / np.log(vals[1:]))
-                mu = np.sort(np.linalg.eigvals(Td).real)[::-1][1:k]
-                indep.append((lag, mu))
+                w_all, bound_all = eig_sensitivity(Td)
+                indep.append((lag, w_all.real[1:k], bound_all[1:k], bool(np.any(Td.sum(axis=1) == 0))))
     except Exception as e:  # noqa
         ctx.skip('pipeline by hand raised %s (builder guard)' % type(e).__name__)
         return
@@ -1026,22 +1076,32 @@ def check_timescales(ctx, case, model_nt):
             ctx.violation('implied timescales for lag %d are not -lag/log(eigenvalue) of the fitted matrix' % lag,
                           dict(rep, lag=lag, got=got[i].tolist(), expected=e.tolist()))
             return
-        # independent eigenvalues; only where the formula is well conditioned
-        mu = indep[i][1]
+        # independent eigenvalues.  t = -lag / log(mu): a perturbation d of mu changes t by the relative
+        # amount d / (mu |log mu|); d is the eigenvalue's own rounding sensitivity (eig_sensitivity), which is
+        # large for the (nearly) defective eigenvalues of tiny count matrices.  Compared only where the
+        # resulting uncertainty of t is small; everything else is skipped and counted.
+        _, mu, bound, zero_rows = indep[i]
         for j in range(min(len(mu), got.shape[1])):
-            # t = -lag / log(mu): a perturbation d of mu changes t by the relative amount d / (mu |log mu|);
-            # the comparison is made where that amplification of LAPACK's ~1e-10 is still small
-            kappa = 1.0 / (mu[j] * abs(np.log(mu[j]))) if 0 < mu[j] < 1 else np.inf
-            if kappa <= 1e6:
-                t = -lag / np.log(mu[j])
-                if kappa > 1e3:
-                    ctx.tag('timescales-eigenvalue-within-1e-3-of-one')
-                if not abs(got[i, j] - t) <= (1e-8 + 1e-10 * kappa) * abs(t):
-                    ctx.violation('implied timescale %d for lag %d differs from -lag/log of the independent eigenvalue'
-                                  % (j, lag), dict(rep, lag=lag, got=float(got[i, j]), expected=float(t)))
-                    return
-            else:
-                ctx.tag('timescales-illconditioned-or-nonpositive-eigenvalue')
+            if zero_rows:
+                ctx.skip('timescales: fitted matrix has an all-zero row (independent eigenvalues not compared)')
+                break
+            if not 0 < mu[j] < 1:
+                ctx.tag('timescales-nonpositive-eigenvalue')
+                continue
+            kappa = 1.0 / (mu[j] * abs(np.log(mu[j])))
+            unc = kappa * (1e-10 + bound[j])               # relative uncertainty of t
+            if mu[j] < 1e4 * bound[j] or unc > 1e-5:
+                ctx.skip('timescales: independent eigenvalue too sensitive to rounding (defective / near one)')
+                continue
+            t = -lag / np.log(mu[j])
+            if kappa > 1e3:
+                ctx.tag('timescales-eigenvalue-within-1e-3-of-one')
+            ctx.tag('timescales-independent-eigenvalue-compared')
+            if not abs(got[i, j] - t) <= (1e-8 + 10 * unc) * abs(t):
+                ctx.violation('implied timescale %d for lag %d differs from -lag/log of the independent eigenvalue'
+                              % (j, lag), dict(rep, lag=lag, got=float(got[i, j]), expected=float(t),
+                                               eigenvalue=float(mu[j]), sensitivity=float(bound[j])))
+                return
 
 
 def gen_timescales(rng, metastable=0):
@@ -1059,6 +1119,7 @@ def gen_timescales(rng, metastable=0):
             L = int(rng.integers(25, 60))
             rows.append([int(x) for x in rng.integers(0, nstates, size=L)])
     rows[0][:nstates] = list(range(nstates))       # every state is visited
+    form = 'ragged' if rng.random() < 0.5 else 'padded'
     trim = bool(rng.random() < 0.3)
     lags = [int(rng.integers(1, 5))] if trim else sorted({int(x) for x in rng.integers(1, 5, size=int(rng.integers(1, 4)))})
     r = rng.random()
@@ -1066,8 +1127,8 @@ def gen_timescales(rng, metastable=0):
     return {'rows': rows, 'lags': lags, 'builder': str(rng.choice(BUILDERS if not metastable else ('transpose', 'normalize'))),
             'n_times': n_times, 'metastable': metastable,
             'sliding': bool(rng.random() < 0.6), 'trim': trim,
-            'form': 'ragged' if rng.random() < 0.5 else 'padded',
-            'dtype': str(rng.choice(ASSIGN_DTYPES)), 'lags_kind': str(rng.choice(['list', 'tuple', 'ndarray']))}
+            'form': form, 'dtype': pick_dtype(rng, form),
+            'lags_kind': str(rng.choice(['list', 'tuple', 'ndarray']))}
 
 
 def timescales_request(case):
@@ -1382,6 +1443,150 @@ def section_history(ctx):
         check_repeat_calls(ctx, ctx.rng)
 
 
+# ----------------------------------------------------------------------------- configuration sweeps on one estimator
+
+SWEEP_KEYS = ('lag', 'builder', 'trim', 'sliding', 'max_n')
+PARAM_NAME = {'lag': 'lag_time', 'builder': 'method', 'trim': 'trim', 'sliding': 'sliding_window',
+              'max_n': 'max_n_states'}
+
+
+def sweep_rows_trimmed(rng, k):
+    """k core states visited over and over (strongly connected at small lags) inside a universe of k+1 or
+    k+2 ids; the other ids are one-way states (entered and never left / left and never entered), and at
+    least one of them is smaller than a core id, so trimming keeps k states under a non-identity mapping"""
+    e = int(rng.integers(1, 3))
+    while True:
+        ids = [int(x) for x in rng.permutation(k + e)]
+        dropped, core = ids[:e], sorted(ids[e:])
+        if min(dropped) < max(core):
+            break
+    main = core + [core[0]] + [int(x) for x in rng.choice(core, size=int(rng.integers(40, 70)))]
+    rows = [main + [dropped[0]]]
+    for d in dropped[1:]:
+        rows.append([d] + [int(x) for x in rng.choice(core, size=12)])
+    return rows
+
+
+def sweep_rows_full(rng, k):
+    """exactly the states 0..k-1, all visited"""
+    rows = [list(range(k)) + [int(x) for x in rng.integers(0, k, size=int(rng.integers(30, 60)))]]
+    if rng.random() < 0.4:
+        rows.append([int(x) for x in rng.integers(0, k, size=int(rng.integers(5, 20)))])
+    return rows
+
+
+def gen_sweep(rng):
+    k = int(rng.integers(2, 5))
+    builders_ = ('normalize', 'transpose', 'transpose', 'normalize', 'mle')
+    cfg = {'lag': int(rng.integers(1, 3)), 'builder': str(rng.choice(builders_)), 'trim': True,
+           'sliding': bool(rng.random() < 0.7), 'max_n': None}
+    steps = [dict(cfg, rows=sweep_rows_trimmed(rng, k), how='init', reload=False)]
+    plan = ['off', 'on', 'off-reloaded', 'other', 'on', 'off'][:int(rng.integers(3, 7))]
+    if rng.random() < 0.3:
+        plan = ['on'] + plan                       # refit with trimming before it is switched off
+    for what in plan:
+        cfg = dict(cfg)
+        if what in ('off', 'off-reloaded'):
+            cfg['trim'], cfg['max_n'] = False, (None if rng.random() < 0.6 else k)
+            rows = sweep_rows_full(rng, k)
+        elif what == 'on':
+            cfg['trim'], cfg['max_n'] = True, (None if rng.random() < 0.7 else k + 3)
+            rows = sweep_rows_trimmed(rng, k)
+        else:
+            key = str(rng.choice(['lag', 'sliding', 'builder', 'max_n']))
+            if key == 'lag':
+                cfg['lag'] = 3 - cfg['lag'] if cfg['lag'] in (1, 2) else 1
+            elif key == 'sliding':
+                cfg['sliding'] = not cfg['sliding']
+            elif key == 'builder':
+                cfg['builder'] = str(rng.choice([b for b in ('normalize', 'transpose') if b != cfg['builder']] or ['normalize']))
+            else:
+                cfg['max_n'] = k + int(rng.integers(1, 4))
+            rows = sweep_rows_full(rng, k) if not cfg['trim'] else sweep_rows_trimmed(rng, k)
+        if rng.random() < 0.25:                    # one more parameter moves in the same step
+            cfg['sliding'] = not cfg['sliding']
+        steps.append(dict(cfg, rows=rows, how=str(rng.choice(['set_params', 'attr'])),
+                          reload=(what == 'off-reloaded' or rng.random() < 0.1)))
+    form = 'ragged' if rng.random() < 0.5 else 'padded'
+    return {'steps': steps, 'form': form, 'dtype': pick_dtype(rng, form)}
+
+
+def check_sweep(ctx, case):
+    """ONE estimator object taken through a sequence of configurations (set_params or attribute
+    assignment, optionally replaced by MSM.load(MSM.save()) of itself) and data sets; after every fit all
+    four results and the mapping must be what the function pipeline gives for the configuration in force"""
+    from enspara.msm import MSM, builders
+    rep = dict(case, kind='sweep')
+    ctx.case(rep, nontrivial=True, tags=['sweep', 'sweep-steps=%d' % len(case['steps']), 'sweep-' + case['form']])
+    m, cur = None, None
+    base = tempfile.mkdtemp(prefix='c16_msm_')
+    try:
+        for i, st in enumerate(case['steps']):
+            pc = dict(st, form=case['form'], dtype=case['dtype'], by_name=False)
+            a = make_assigns(st['rows'], case['form'], case['dtype'])
+            with quiet():
+                pipe = run_pipeline(pc)
+            err = None
+            try:
+                with quiet():
+                    if m is None:
+                        m = MSM(lag_time=st['lag'], method=getattr(builders, st['builder']), trim=st['trim'],
+                                sliding_window=st['sliding'], max_n_states=st['max_n'])
+                    else:
+                        if st.get('reload') and hasattr(m, 'tprobs_'):
+                            path = os.path.join(base, 'gen%d' % i)
+                            m.save(path)
+                            keep_max_n = m.max_n_states
+                            m = MSM.load(path)
+                            m.max_n_states = keep_max_n          # not part of the saved config
+                            ctx.tag('sweep-refit-of-loaded-model')
+                        changed = {k: st[k] for k in SWEEP_KEYS if st[k] != cur[k] or k == 'max_n'}
+                        for k, v in changed.items():
+                            v = getattr(builders, v) if k == 'builder' else v
+                            if st['how'] == 'set_params':
+                                m.set_params(**{PARAM_NAME[k]: v})
+                            else:
+                                setattr(m, PARAM_NAME[k], v)
+                        for k in changed:
+                            if st[k] != cur[k]:
+                                ctx.tag('sweep-change-%s-by-%s' % (k, st['how']))
+                    prev_map = mapping_dict(m.mapping_) if hasattr(m, 'mapping_') else None
+                    cur = {k: st[k] for k in SWEEP_KEYS}
+                    m.fit(a)
+            except Exception as e:  # noqa
+                err = type(e).__name__
+            where = 'step %d (%s%s: %s)' % (i, st['how'], ', reloaded' if st.get('reload') else '',
+                                             ', '.join('%s=%s' % (PARAM_NAME[k], st[k]) for k in SWEEP_KEYS))
+            if 'error' in pipe or err:
+                if pipe.get('error') != err:
+                    ctx.violation('configuration sweep, %s: estimator %s, pipeline %s' % (
+                        where, 'raised ' + err if err else 'returned',
+                        'raised ' + pipe['error'] if 'error' in pipe else 'returned'), dict(rep, step=i))
+                    return
+                ctx.skip('sweep: a builder guard raised in both estimator and pipeline')
+                if err and not hasattr(m, 'tprobs_'):
+                    return
+                continue
+            if (not st['trim'] and prev_map is not None and len(prev_map) == len(pipe['mapping'])
+                    and prev_map != pipe['mapping']):
+                ctx.tag('sweep-size-coincidence (old non-identity mapping has the new state count)')
+            if st['trim'] and any(k != v for k, v in pipe['mapping'].items()):
+                ctx.tag('sweep-trimming-renumbers')
+            d = fit_diff(m, pipe)
+            if d:
+                ctx.violation('configuration sweep, %s: %s is not what the function pipeline gives for the '
+                              'configuration in force' % (where, d), dict(rep, step=i, attribute=d,
+                                                                          got=(mapping_dict(m.mapping_) if d == 'mapping_' else None)))
+                return
+    finally:
+        shutil.rmtree(base, ignore_errors=True)
+
+
+def section_sweep(ctx):
+    for _ in range(ctx.n(40, 600)):
+        check_sweep(ctx, gen_sweep(ctx.rng))
+
+
 # ----------------------------------------------------------------------------- entry points
 
 def run(ctx):
@@ -1392,7 +1597,7 @@ def run(ctx):
     wall['fit'] = round(time.time() - t, 1)
     for name, fn in (('saveload', lambda: section_saveload(ctx, fitted)), ('mapping', lambda: section_mapping(ctx)),
                      ('eig', lambda: section_eig(ctx)), ('timescales', lambda: section_timescales(ctx)),
-                     ('ensemble', lambda: section_ensemble(ctx)), ('history', lambda: section_history(ctx))):
+                     ('ensemble', lambda: section_ensemble(ctx)), ('history', lambda: section_history(ctx)), ('sweep', lambda: section_sweep(ctx))):
         t = time.time()
         fn()
         wall[name] = round(time.time() - t, 1)
@@ -1443,6 +1648,8 @@ def replay(ctx, data):
             if k in data:
                 c[k] = data[k]
         check_ensemble(ctx, c, ctx.driver([ensemble_request(c)])[0])
+    elif kind == 'sweep':
+        check_sweep(ctx, {'steps': data['steps'], 'form': data['form'], 'dtype': data['dtype']})
     elif kind == 'history':
         c = {k: v for k, v in data.items() if k not in ('kind', 'attribute', 'step')}
         check_history(ctx, c)
